@@ -66,6 +66,27 @@ def handle (op : String) (a r : Json) : Except String Reply := do
     -- duplicates; how many depends on timing
     let m' := if offsetFresh then mj else jObj [("unmodelled", Json.str "the source asks for results from a stale offset")]
     pure { m := m', prop := some holds, why := why, sig := sig }
+  | "ackcrash" =>
+    if let some e := optField r "error" then throw s!"harness error: {e.compress}"
+    -- the records of the unit so far: at creation (bound to the executing node, no remote unit yet) and — when the source
+    -- stores the remote unit's ID as soon as it is acknowledged (regenerated fact) — the rewrite carrying it.  `remote` stands
+    -- for the remote unit here (7 = the ID the executing node answered).
+    let early : Bool := Receptor.Facts.crash_remote_bind_order = "store(RemoteUnitID);stream-stdin;store(RemoteStarted)"
+    let r0 : Receptor.Crash.Rec := { wt := 1, state := 0, size := 0, remote := none }
+    let disk := Receptor.Crash.applyAll {} (Receptor.Crash.history false r0 [{ r0 with remote := some 7 }])
+    let expect : Json :=
+      match Receptor.Crash.restartView 1 [1] disk with
+      | .listed w _ _ rm =>
+        jObj [("listed", Json.bool true), ("wt", Json.str (if w == 1 then "remote" else "")), ("node", Json.str "ackB"),
+              ("remote_unit", Json.str (if rm == some 7 then "remote123" else ""))]
+      | .notListed => jObj [("listed", Json.bool false)]
+    let obs ← getArr r "points"
+    let spec := jObj [("points", jArr (obs.map fun _ => expect)), ("nontrivial", Json.bool true)]
+    let holds := canonEq r spec
+    let m := if early then spec else jObj [("unmodelled", Json.str "the remote unit's ID is not stored before its stdin is sent")]
+    pure { m := m, prop := some holds,
+           why := if holds then "" else s!"a remote unit whose executing node had acknowledged it (remote unit remote123): a node killed while the unit's stdin was being sent comes back with the unit not listed, without its work type, or no longer bound to that node and remote unit: {r.compress}",
+           sig := if holds then "" else "C04/remote-binding-lost-by-crash-during-stdin" }
   | _ => throw s!"bad-op mirror {op}"
 
 end Receptor.Drive.Mirror
